@@ -210,6 +210,35 @@ func c16(c *ev.Ctx) {
 	// built-ins hand back new values: the container given to them is unchanged afterwards
 	// (same printed form, same length, same iteration) - also while it is being iterated
 	c16BuiltinsKeepArgument(c, "a", func(lit string) (string, map[string]interface{}) { return "a = " + lit + "; ", nil })
+	// an integer and a float (or a string) of the same printed form in one script are still
+	// two different keys, members and elements
+	for vi, v := range []int64{65535, 65536, 70000, 2147483648, 9007199254740992, 1000000} {
+		id := fmt.Sprintf("print-alike/%d", vi)
+		if !c.Want(id) {
+			continue
+		}
+		I, F, S := fmt.Sprint(v), fmt.Sprintf("%d.0", v), fmt.Sprintf("\"%d\"", v)
+		cases := []struct{ script, want string }{
+			{"h = {" + I + ": \"i\", " + F + ": \"f\", " + S + ": \"s\"}; return [len(h), h[" + I + "], h[" + F + "], h[" + S + "]];", "ARRAY:[3, i, f, s]"},
+			{"h = {" + F + ": \"f\", " + I + ": \"i\"}; n = 0; foreach k, v1 in h { n++; } return [n, len(keys(h)), h[" + I + "], h[" + F + "]];", "ARRAY:[2, 2, i, f]"},
+			{"a = [" + I + ", " + F + ", " + S + "]; return [type(a[0]), type(a[1]), type(a[2]), " + I + " in a, " + F + " in [" + I + "], " + S + " in [" + I + ", " + F + "]];", "ARRAY:[integer, float, string, true, false, false]"},
+			{"a = [" + F + ", " + I + "]; return [type(a[0]), type(a[1]), len(a)];", "ARRAY:[float, integer, 2]"},
+			{"h = {" + S + ": 1}; return [h[" + I + "], h[" + F + "], h[" + S + "]];", "ARRAY:[null, null, 1]"},
+		}
+		for _, tc := range cases {
+			for _, noOpt := range []bool{false, true} {
+				evr, err := eng.New(tc.script, eng.Options{NoOptimize: noOpt})
+				got := "prepare-error"
+				if err == nil {
+					got = evr.Exec(nil).Desc()
+				}
+				c.Case(tc.script+fmt.Sprint(noOpt), true)
+				if got != tc.want {
+					c.Violation(id, "keys / members that print alike are confused", map[string]interface{}{"summary": fmt.Sprintf("%s (noopt=%v) gives %s, expected %s", tc.script, noOpt, got, tc.want), "script": tc.script})
+				}
+			}
+		}
+	}
 	// hashes with tied printed keys: dedicated oracle
 	for ti, h := range c16TieHashes() {
 		for prov := 0; prov < 2; prov++ {
